@@ -150,6 +150,9 @@ def tree_family(lv: Leaves, deep: bool = False) -> list:
 def _collector(run: Run) -> None:
     m = run.src.need(CQ)
     lv = Leaves()
+    misc = run.src.need("symplyphysics.core.dimensions.miscellaneous")
+    # helpers of the sibling module the collectors import (followed into their source); the predicates K5 decides keep their hooks
+    misc_functions = {f_.name: f_ for f_ in misc.tree.body if isinstance(f_, ast.FunctionDef) and f_.name not in ("is_any_dimension", "is_number")}
     fam = tree_family(lv, run.tier == "thorough")
     run.require(len(fam) >= 400, "tree family shrank")
     reported = set()
@@ -161,6 +164,7 @@ def _collector(run: Run) -> None:
         except AnalysisError:
             continue  # outside what the specification function decides
         R = QReader(m.tree, "collect_quantity.py", lv)
+        R.extern_functions = misc_functions
         try:
             got = R.call("collect_quantity_factor_and_dimension", [tree])
         except Raised as r:
